@@ -262,7 +262,13 @@ fn manager(family: String, work: Arc<Mutex<Receiver<(u64, String)>>>, opts: Arc<
             let cpu = crate::util::proc_tree_cpu_ms(run.child.id()).map(|c| c.saturating_sub(cpu_at_progress));
             let give_up = match cpu {
                 None => true,
-                Some(c) => wall >= 8 * opts.timeout_ms || c >= opts.timeout_ms || c * 32 < wall,
+                // over the limit in CPU time; or far over it in wall-clock time; or idle - asleep (not merely waiting for a CPU on a
+                // busy machine) with next to no CPU time used, for twice the limit
+                Some(c) => {
+                    wall >= 8 * opts.timeout_ms * crate::util::overload().min(4)
+                        || c >= opts.timeout_ms
+                        || (wall >= 2 * opts.timeout_ms && c * 32 * crate::util::overload() < wall && crate::util::proc_state(run.child.id()) != 'R')
+                }
             };
             if give_up {
                 break;
